@@ -1,5 +1,6 @@
 import SmsVerif.Driver.C20
 import SmsVerif.Driver.Layout
+import SmsVerif.Driver.Meta
 open SmsVerif SmsVerif.Driver
 
 def dispatch (line : String) : String :=
@@ -10,6 +11,8 @@ def dispatch (line : String) : String :=
   | "dec" :: toks => (handleDec toks).getD "bad-op"
   | "decalloc" :: toks => (handleDecAlloc toks).getD "bad-op"
   | ["pdus"] => handlePdus
+  | "meta" :: toks => (handleMeta toks).getD "bad-op"
+  | "dispatch" :: toks => (handleDispatch toks).getD "bad-op"
   | _ => "bad-op"
 
 partial def loop (hin hout : IO.FS.Stream) : IO Unit := do
